@@ -31,6 +31,27 @@ def main():
         paths_before = sizes_before = None
         out["paths_error"] = f"{type(e).__name__}: {e}"[:200]
 
+    # two enumerations alive at the same time (one peeked at with next(), the other run to the end in between; different validation
+    # functions): each must give what it gives on its own
+    inter = out["interleaved"] = {}
+    for ns_i, bn_i in (("PathTokenizers", "_PathTokenizer"), ("AdjListTokenizers", "_AdjListTokenizer"), ("CoordTokenizers", "_CoordTokenizer"), ("StepSizes", "_StepSize")):
+        try:
+            tp = getattr(getattr(T, ns_i), bn_i)
+            alone_vf = sorted(x.name for x in all_instances(tp, VF))
+            alone_raw = sorted(x.name for x in all_instances(tp, None))
+            it_raw = all_instances(tp, None)
+            first_raw = [next(it_raw).name]
+            inner_vf = sorted(x.name for x in all_instances(tp, VF))
+            rest_raw = sorted(first_raw + [x.name for x in it_raw])
+            it_vf = all_instances(tp, VF)
+            first_vf = [next(it_vf).name]
+            inner_raw = sorted(x.name for x in all_instances(tp, None))
+            rest_vf = sorted(first_vf + [x.name for x in it_vf])
+            inter[f"{ns_i}.{bn_i}"] = dict(alone_vf=len(alone_vf), alone_raw=len(alone_raw), inner_vf=len(inner_vf), outer_raw=len(rest_raw), inner_raw=len(inner_raw), outer_vf=len(rest_vf),
+                                           same=(inner_vf == alone_vf and rest_raw == alone_raw and inner_raw == alone_raw and rest_vf == alone_vf))
+        except Exception as e:  # noqa: BLE001
+            inter[f"{ns_i}.{bn_i}"] = dict(error=f"{type(e).__name__}: {e}"[:200])
+
     bases = [("CoordTokenizers", "_CoordTokenizer"), ("EdgeGroupings", "_EdgeGrouping"), ("EdgePermuters", "_EdgePermuter"), ("EdgeSubsets", "_EdgeSubset"),
              ("AdjListTokenizers", "_AdjListTokenizer"), ("TargetTokenizers", "_TargetTokenizer"), ("StepSizes", "_StepSize"), ("StepTokenizers", "_StepTokenizer"),
              ("PathTokenizers", "_PathTokenizer"), ("PromptSequencers", "_PromptSequencer")]
